@@ -20,7 +20,9 @@ from pathlib import Path
 from typing import Any, Dict, List, Optional
 
 ROOT = Path(__file__).resolve().parent.parent
-PY = str(ROOT / ".venv" / "bin" / "python")
+PY = os.environ.get("VF_PY") or str(ROOT / ".venv" / "bin" / "python")
+if not os.path.isabs(PY):
+    PY = str(ROOT / PY)
 NPROC = int(os.environ.get("VF_NPROC", os.cpu_count() or 4))
 
 
